@@ -139,6 +139,9 @@ fn file_bytes(dir: &Path) -> BTreeMap<String, Vec<u8>> {
     m
 }
 
+/// (--no-aftermath: the probes stop after the put and the restart; for checks that only judge the calls)
+static NO_AFTERMATH: std::sync::atomic::AtomicBool = std::sync::atomic::AtomicBool::new(false);
+
 fn probe_image(dir: &Path, cfg: &SpecCfg, names: &Names, cont_key: &str, cont_val: &str) -> Value {
     let before = ids_in(dir);
     let bytes_before = file_bytes(dir);
@@ -183,6 +186,11 @@ fn probe_image(dir: &Path, cfg: &SpecCfg, names: &Names, cont_key: &str, cont_va
     let mut aft = json!({"done": false});
     let (reopened, gets_after_reopen) =
         match std::panic::catch_unwind(std::panic::AssertUnwindSafe(move || conf.open())) {
+            Ok(Ok(kv2)) if NO_AFTERMATH.load(std::sync::atomic::Ordering::Relaxed) => {
+                let g = read_all(&kv2.get_handle(), names);
+                drop(kv2);
+                (true, g)
+            }
             Ok(Ok(kv2)) => {
                 let h3 = kv2.get_handle();
                 let g = read_all(&h3, names);
@@ -641,14 +649,46 @@ fn run_fault(b: &Behaviour, names: &Names, max_points: usize, only_op: Option<&s
                     break;
                 }
             }
-            // finally: close, the directory must open and read correctly
+            // when every file is eligible by its size, one more merge pass (no fault is left) must leave the store
+            // exactly as large as its live data: whatever the failed call left behind is reclaimed (C13)
+            if kv.is_some() && b.cfg.th_small >= 1_000_000 {
+                let mut note = json!({"ev": "inv", "op": "merge", "run": b.id, "phase": "op", "fault": j});
+                pend.set(&note);
+                let h2 = h.clone();
+                let res = match std::panic::catch_unwind(std::panic::AssertUnwindSafe(move || h2.verif_merge())) {
+                    Ok(Ok(())) => "ok".to_string(),
+                    Ok(Err(e)) => format!("err:{e}"),
+                    Err(_) => "panic".into(),
+                };
+                let _ = shim::take_calls();
+                note["phase"] = json!("gets");
+                pend.set(&note);
+                let gets = read_all(&h, names);
+                let size: u64 = list_files(&dir, "data").iter().map(|(_, p)| fs::metadata(p).map(|m| m.len()).unwrap_or(0)).sum();
+                out.emit(&json!({"ev": "fullmerge", "res": res, "gets": gets, "size": size}));
+                let _ = shim::take_calls();
+            }
+            // finally: close, the directory must open and read correctly - with and without its hint files
             drop(kv);
             let _ = shim::take_calls();
             shim::stop();
             pend.set(&json!({"ev": "final", "run": b.id, "phase": "probe", "fault": j}));
+            let nh = Scratch::new("nohint");
+            let mut nhints = 0;
+            if let Ok(rd) = fs::read_dir(&dir) {
+                for e in rd.flatten() {
+                    let name = e.file_name().to_string_lossy().to_string();
+                    if name.ends_with(".hint") {
+                        nhints += 1;
+                    } else {
+                        let _ = fs::copy(e.path(), nh.path().join(&name));
+                    }
+                }
+            }
             let rec = recover_in_place(&dir, &b.cfg, names);
+            let rec_nh = recover_in_place(nh.path(), &b.cfg, names);
             pend.clear();
-            out.emit(&json!({"ev": "final", "rec": rec}));
+            out.emit(&json!({"ev": "final", "rec": rec, "hints": nhints, "rec_nohint": rec_nh}));
             nruns += 1;
         }
     }
@@ -668,6 +708,7 @@ fn main() {
     let max_points: usize = arg_val(&args, "--max-points").and_then(|s| s.parse().ok()).unwrap_or(1_000_000);
     // fault mode: fail only the calls issued by operations of this kind (e.g. merge)
     let only_op: Option<String> = arg_val(&args, "--only-op");
+    NO_AFTERMATH.store(args.iter().any(|a| a == "--no-aftermath"), std::sync::atomic::Ordering::Relaxed);
     let shard = arg_val(&args, "--shard").unwrap_or_else(|| "0/1".into());
     let (si, sn): (usize, usize) = {
         let mut it = shard.split('/');
